@@ -95,6 +95,7 @@ Defs(g) == UNION {{<<b, i>> : i \in {j \in 1..Len(g.blocks[b].stmts) : g.blocks[
 SsaStatic(g) ==
   IF \E p \in Defs(g), q \in Defs(g) : p # q /\ g.blocks[p[1]].stmts[p[2]].w = g.blocks[q[1]].stmts[q[2]].w
                                         /\ g.blocks[p[1]].stmts[p[2]].wv = g.blocks[q[1]].stmts[q[2]].wv
+                                        /\ g.blocks[p[1]].stmts[p[2]].wv >= 0        \* versioned locals only
   THEN "a version has two defining statements"
   ELSE IF \E b \in 1..NB(g) : \E i \in 2..Len(g.blocks[b].stmts) : g.blocks[b].stmts[i].phi /\ ~g.blocks[b].stmts[i - 1].phi
   THEN "phi statement not at the head of its block"
@@ -117,10 +118,11 @@ SsaStatic(g) ==
   THEN "a signal or component carries a version"
   ELSE "ok"
 
+\* kind "static": a hand-written definition without a source tree: only the clauses that need none are judged
 StaticVerdict == IF R.kind = "skip" THEN "ok"
                  ELSE IF WellFormed(G) # "ok" THEN WellFormed(G)
                  ELSE IF WellFormed(S) # "ok" THEN WellFormed(S)
-                 ELSE IF ~DepthOK(Tree, G) \/ ~DepthOK(Tree, S) THEN "recorded loop depth differs from the nesting of the source"
+                 ELSE IF R.kind = "ok" /\ (~DepthOK(Tree, G) \/ ~DepthOK(Tree, S)) THEN "recorded loop depth differs from the nesting of the source"
                  ELSE SsaStatic(S)
 
 (* ---------------- the Impl model of lifting (Lifting.tla) --------------- *)
@@ -138,7 +140,7 @@ SameShape(m, g) ==
                c == Tagged(g.blocks[b]) IN
            /\ Len(a) = Len(c)
            /\ \A i \in 1..Len(a) : a[i].tag = c[i].tag /\ (a[i].k = "if") = (c[i].k = "if") /\ (a[i].k = "if" => (a[i].t = c[i].t /\ a[i].f = c[i].f))
-ModelVerdict == IF R.kind = "skip" THEN "ok"
+ModelVerdict == IF R.kind # "ok" THEN "ok"
                 ELSE IF WellFormedCore(mg) # "ok" THEN "MODEL: " \o WellFormedCore(mg)
                 ELSE IF ~DepthOK(Tree, mg) THEN "MODEL: loop depth differs from the nesting of the source"
                 ELSE "ok"
@@ -154,7 +156,7 @@ IDF(g, base, acc) == LET nxt == UNION {DF(g, x) : x \in base \cup acc} IN
                      IF nxt \subseteq acc THEN acc ELSE IDF(g, base, acc \cup nxt)
 PhiBlocks(g, v) == {b \in 1..NB(g) : \E i \in 1..Len(g.blocks[b].stmts) : g.blocks[b].stmts[i].phi /\ g.blocks[b].stmts[i].w = v}
 PhiAsModel == \A v \in SeqSet(S.vars) : PhiBlocks(S, v) = IDF(G, Writes(G, v), {})
-DriftVerdict == IF R.kind = "skip" THEN "ok"
+DriftVerdict == IF R.kind # "ok" THEN "ok"
                 ELSE IF ~SameShape(mg, G) THEN "DRIFT: the exported graph is not the graph Lifting.tla builds"
                 ELSE IF ~PhiAsModel THEN "DRIFT: phi statements are not placed at the iterated dominance frontier of the assignments"
                 ELSE "ok"
@@ -173,6 +175,7 @@ SrcStep(st, d) ==
          <<nd.id + 1, IF d THEN PushKids(rest \o <<[f |-> "forloop", n |-> fr.n], [f |-> "forstep", n |-> fr.n]>>, <<nd.t>>) ELSE rest, FALSE, TRUE>>
     ELSE IF fr.f = "forstep" THEN <<nd.id + 2, rest, FALSE, FALSE>>
     ELSE CASE nd.k \in {"s", "n"} -> <<nd.id, rest, FALSE, FALSE>>
+           [] nd.k = "d" -> SrcStep(rest, d)                       \* a declaration without initialiser: nothing observable
            [] nd.k = "r" -> <<nd.id, <<>>, TRUE, FALSE>>
            [] nd.k = "blk" -> SrcStep(PushKids(rest, nd.kids), d)
            [] nd.k = "if" -> <<nd.id, IF d THEN PushKids(rest, <<nd.t>>) ELSE rest, FALSE, TRUE>>
@@ -241,7 +244,7 @@ Init == /\ l = 1
 
 IterOf(tag) == IF tag \in DOMAIN iters THEN iters[tag] ELSE 0
 Step(d) ==
-  /\ l <= Len(Rec) /\ R.kind # "skip" /\ ~done /\ bad = "" /\ run < MaxRun
+  /\ l <= Len(Rec) /\ R.kind = "ok" /\ ~done /\ bad = "" /\ run < MaxRun
   /\ LET s == SrcStep(stack, d)
          tag == s[1]
          w == Walk(G, pos, d, 200)
